@@ -133,11 +133,13 @@ ChooseRead(t) ==
         \* ctor: Tensor R = slice;  expr: Tensor R = m*slice+c;  assign / addassign / assignexpr: the same into an EXISTING tensor
         \* (R = slice; R += slice on zeros; R = m*slice+c) -- construction and assignment take different evaluation routes
         \* cassign / cctor: the same reads through a CONST reference to the parent (the const view classes are separate code)
-        form == PickSeq(<<"ctor", "expr", "iseq", "assign", "assign", "addassign", "assignexpr", "cassign", "cctor">>)
+        \* caddassign / cexpr / cassignexpr: += and expression reads through a const parent (flat, scalar eval_s(idx) route of the const views)
+        form == PickSeq(<<"ctor", "expr", "iseq", "assign", "assign", "addassign", "assignexpr", "cassign", "cctor",
+                          "caddassign", "cexpr", "cassignexpr", "caddassign">>)
         \* a const tensor offers fewer mixed overloads (no (all, seq) / (fseq, seq) forms): const reads use seq on every axis, or a fixed view
         r   == IF form = "iseq" THEN [a \in 1..Len(shp) |-> DrawRange(shp[a], {"iseq"})]
-               ELSE IF form \in {"cassign", "cctor"}
-                    THEN (IF Pick(1..3) = 1 THEN DrawSliceStyle(shp, "fix") ELSE [a \in 1..Len(shp) |-> DrawRange(shp[a], {"seq"})])
+               ELSE IF form \in {"cassign", "cctor", "caddassign", "cexpr", "cassignexpr"}
+                    THEN (IF Pick(1..2) = 1 THEN DrawSliceStyle(shp, "fix") ELSE [a \in 1..Len(shp) |-> DrawRange(shp[a], {"seq"})])
                     ELSE DrawSlice(shp, TRUE)
     IN [e |-> "SliceRead", buf |-> h, shape |-> shp, r |-> r, form |-> form, m |-> Val(Pick({2, -3})), c |-> Val(Pick({1, -2}))]
 ChooseScalar(write, t) ==
